@@ -662,7 +662,8 @@ pub fn replay(ctx: &Ctx, w: &Value) {
 /// `vh serve <address>`: the standard service behind listen(), until killed.
 pub fn serve(address: &str) -> i32 {
     let svc = if std::env::var("VH_PROCESS_SERVICE").is_ok() { process_service() } else { standard_service(SvcCfg::default()) };
-    match varlink::listen(svc, address, &varlink::ListenConfig { max_worker_threads: 200, ..Default::default() }) {
+    let max = std::env::var("VH_MAX_WORKERS").ok().and_then(|v| v.parse().ok()).unwrap_or(200usize);
+    match varlink::listen(svc, address, &varlink::ListenConfig { max_worker_threads: max, ..Default::default() }) {
         Ok(()) => 0,
         Err(e) => {
             eprintln!("listen: {:?}", e);
